@@ -25,7 +25,7 @@ fn group(digits: &str) -> String {
 }
 
 fn u64_cases(tier: Tier) -> Vec<u64> {
-    let mut v: Vec<u64> = (0..=if tier == Tier::Quick { 100_000 } else { 2_000_000 }).collect();
+    let mut v: Vec<u64> = (0..=if tier == Tier::Quick { 100_000 } else { 20_000_000 }).collect();
     let mut p: u128 = 1;
     for _ in 0..20 {
         for d in 1..=9u128 {
@@ -274,7 +274,7 @@ pub fn run(tier: Tier, shard: Shard, stats: &mut Stats) {
         }
     }
     // FormattedDuration: 0..=200_000 s exhaustively, boundaries, MAX
-    let mut fds: Vec<Duration> = (0..=if tier == Tier::Quick { 200_000u64 } else { 2_000_000 }).map(Duration::from_secs).collect();
+    let mut fds: Vec<Duration> = (0..=if tier == Tier::Quick { 200_000u64 } else { 20_000_000 }).map(Duration::from_secs).collect();
     for u in [60u64, 3600, 86400, 86400 * 365, 86400 * 1000] {
         for k in [1u64, 2, 10, 99, 100, 1000] {
             for off in [-1i64, 0, 1] {
@@ -294,7 +294,7 @@ pub fn run(tier: Tier, shard: Shard, stats: &mut Stats) {
     // HumanDuration: 0..=200 s in 1 ms steps; around every (n + 1/2) unit and every unit switch; MAX
     let mut hd: Vec<Duration> = (0..=200_000u64).map(Duration::from_millis).collect();
     if tier == Tier::Thorough {
-        hd.extend((200_001..=4_000_000u64).map(Duration::from_millis));
+        hd.extend((200_001..=40_000_000u64).map(Duration::from_millis));
     }
     for i in 0..6 {
         let unit_ms = UNITS[i].2 as i128 * 1000;
